@@ -89,3 +89,33 @@ def _kf_c05_b(t):
     n = len(t.get("keys", []))
     norm = [x + n if x < 0 else x for x in p]
     return chunked and (len(set(norm)) < len(norm) or norm != sorted(norm))
+
+
+# ------------------------------------------------------------------------------------------ C16 / C07
+def _no_selected_row(t):
+    keys = t.get("keys", [])
+    m = t.get("mask", {"k": "none"})
+    sel = m["b"] if m.get("k") == "bool" else [1] * len(keys)
+    return not any((-999 not in (k if isinstance(k, list) else [k])) and s for k, s in zip(keys, sel))
+
+
+def _kf_apply_empty(t):
+    # GroupBy.apply (hence median / quantile / group-sorted layouts) when no row at all is selected: IndexError
+    return t.get("out") == "raise" and t.get("exc") == "IndexError" and ("fkind" in t or t.get("op") in ("median",)) and _no_selected_row(t)
+
+
+finding("C16-apply-no-selected-row")(_kf_apply_empty)
+finding("C07-apply-no-selected-row")(_kf_apply_empty)
+
+
+@finding("C07-chunked-keys-positional-mask-as-set")
+def _kf_c07_b(t):
+    return _kf_c05_b(t)
+
+
+@finding("C07-var-std-chunked-positional-mask-mixed")
+def _kf_c07_c(t):
+    # var/std(transform=True) make three kernel calls; the first one unifies the chunked keys, so with a positional
+    # mask the sum of squares is computed with set semantics (chunked route) and sum / count with indexing semantics
+    # (flat route): inconsistent, even negative, variances.  Same root cause as C05-chunked-keys-positional-mask-as-set.
+    return t.get("op") in ("var", "std") and t.get("tf") == 1 and _kf_c05_b(t)
